@@ -312,6 +312,16 @@ func c05Run(ci interface{}, r *core.Rec) {
 		if err == nil {
 			r.Violatef("create-succeeded-without-an-input", "input %d of %v cannot be read, but Create returned nil and wrote %d files: the set cannot be consistent with the inputs it was given", c.Unreadable, c.Names, len(fs.Writes()))
 		}
+		// "every file Create writes": that includes whatever a refused Create wrote before it gave up (no write fault is
+		// injected here, so nothing excuses a malformed file)
+		for _, w := range fs.Writes() {
+			if b, ok := fs.Get(w.Path); ok {
+				if pk, perr := rpar2.Parse(b); perr != nil || len(pk) == 0 {
+					r.Violatef("refused-create-left-a-malformed-file", "Create returned %v, and left %s (%d bytes), which is not a well-formed packet stream: %v", err, w.Path, len(b), perr)
+					break
+				}
+			}
+		}
 		r.Outcome("unreadable " + errClass(err))
 		r.NontrivialCase()
 		return
